@@ -7,6 +7,7 @@ import (
 
 	"github.com/nlnwa/whatwg-url/canonicalizer"
 	"github.com/nlnwa/whatwg-url/url"
+	"golang.org/x/text/encoding/charmap"
 )
 
 type namedSet struct {
@@ -42,6 +43,14 @@ func fingerprint(s *url.PercentEncodeSet) string {
 		}
 	}
 	return sb.String() + setSpec(s)
+}
+
+// parsers with other options than the default one, used to show that one parser's work leaves no trace in another's
+var otherEncoders = []url.Parser{
+	url.NewParser(url.WithEncodingOverride(charmap.ISO8859_1)),
+	url.NewParser(url.WithEncodingOverride(charmap.Windows1252), url.WithPercentEncodeSinglePercentSign()),
+	canonicalizer.Semantic,
+	url.NewParser(url.WithAcceptInvalidCodepoints(), url.WithPercentEncodeSinglePercentSign()),
 }
 
 // refEncode: the shape the property prescribes, written independently of the implementation
@@ -226,6 +235,21 @@ func init() {
 					}
 				}
 				in := func(x rune) bool { return set.RuneShouldBeEncoded(x) }
+				// a parser's answer does not depend on what OTHER parsers of the process did before: every third string is first
+				// encoded and parsed by parsers with other options (encoding override, single-percent, the Semantic profile) -
+				// the default parser's answer below is still compared with the independent reference
+				if i%3 == 0 {
+					func() {
+						defer func() { recover() }()
+						for _, op := range otherEncoders {
+							_ = op.PercentEncodeString(s, set)
+							if u, err := op.Parse("http://h/" + s + "?" + s + "#" + s); err == nil && u != nil {
+								u.SetUsername(s)
+								u.SearchParams().Append(s, s)
+							}
+						}
+					}()
+				}
 				enc := p.PercentEncodeString(s, set)
 				cs := Case{Kind: "unit", Family: "codec", Input: s, Extra: map[string]string{"set": setSpec(set)}, Index: i}
 				c.Count("codec\x00"+setSpec(set)+"\x00"+s, len(s) > 0, "codec")
